@@ -79,6 +79,21 @@ func TestCheck(t *testing.T) {
 		}
 		x := &mon.RIBMon{R: srv.VerifRIB(), M: model.NewRIB(g.S.Default, g.S.NIs, false), CheckHeld: true, CheckRefs: true}
 		var probs []string
+		// every other case programs through the Modify RPC of the server (the payload Get
+		// must return is what the client sent), the rest through package rib
+		var gsProg *drv.GRPCServer
+		if i%2 == 1 {
+			if i%16 == 1 {
+				gsProg = drv.Serve(srv)
+				defer gsProg.Stop()
+			}
+			if err := x.ProgramVia(srv, gsProg); err != nil {
+				run.Fatal(err.Error())
+				return
+			}
+			defer x.Close()
+			run.Count("cases_programmed_through_modify", 1)
+		}
 		nOps := r.Intn(120)
 		if i%40 == 0 {
 			nOps = 0 // empty RIB
